@@ -179,8 +179,12 @@ where
 {
     fn format_response_data(&self, formatter: &mut dyn Formatter) -> Result<()> {
         let mnemonic = self.mnemonic();
-        let short_form = mnemonic.split(|c| !c.is_ascii_uppercase()).next().unwrap();
-        formatter.push_str(short_form)
+        // Keep the numeric suffix (if any) so that the response selects the same variant
+        let (name, suffix) = crate::parser::tokenizer::util::mnemonic_split_index(mnemonic)
+            .unwrap_or((mnemonic, b""));
+        let short_form = name.split(|c| !c.is_ascii_uppercase()).next().unwrap();
+        formatter.push_str(short_form)?;
+        formatter.push_str(suffix)
     }
 }
 
